@@ -149,19 +149,19 @@ theorem race_retry_uses_fresh_connection (c : Cfg) (r : Req) (s : St) (d : Nat) 
 
 /-- The scenario simulation the model driver runs for the end-to-end tie is a `run` over the event list
 `scenarioTrace`: the history theorems speak about exactly what the driver predicts. -/
-theorem scenario_is_a_history (c : Cfg) (r : Req) (bodySent : Bool) (addrs : List Nat) (prime : Bool) (faults : List Fault) :
-    scenario c r bodySent addrs prime faults =
-      run c r (init (if prime then (addrs.filter alive).take 1 else [])) (scenarioTrace c r bodySent addrs prime faults) :=
-  scenario_eq_run c r bodySent addrs prime faults
+theorem scenario_is_a_history (c : Cfg) (r : Req) (bodySent headReq : Bool) (addrs : List Nat) (prime : Bool) (faults : List Fault) :
+    scenario c r bodySent headReq addrs prime faults =
+      run c r (init (if prime then (addrs.filter alive).take 1 else [])) (scenarioTrace c r bodySent headReq addrs prime faults) :=
+  scenario_eq_run c r bodySent headReq addrs prime faults
 
 /-- Scenario-level form of the partial theorem (every configuration with the generated status lists, address list, primed
 pconn, body mode and fault script of any length): a request whose method is neither safe nor idempotent arrives at most
 once unless one of the scripted replies (whole or truncated) carries a re-forwardable status. -/
-theorem scenario_non_idempotent_at_most_once_partial (maxTries : Nat) (onerr pc : Bool) (r : Req) (bodySent : Bool)
+theorem scenario_non_idempotent_at_most_once_partial (maxTries : Nat) (onerr pc : Bool) (r : Req) (bodySent headReq : Bool)
     (addrs : List Nat) (prime : Bool) (faults : List Fault) (hm : r.safe = false ∧ r.idem = false)
     (hno : ∀ f ∈ faults, ∀ st, f.replyStatus = some st → isReforwardableStatus (cfgOf maxTries onerr pc) st = false) :
-    dispatches (scenario (cfgOf maxTries onerr pc) r bodySent addrs prime faults).2 ≤ 1 :=
-  scenario_at_most_once _ r bodySent addrs prime faults hm
+    dispatches (scenario (cfgOf maxTries onerr pc) r bodySent headReq addrs prime faults).2 ≤ 1 :=
+  scenario_at_most_once _ r bodySent headReq addrs prime faults hm
     (reforwardable_statuses_are_errors maxTries onerr pc 200 (by omega)) hno
 
 /-! ### non-vacuity -/
@@ -198,7 +198,7 @@ example :
 
 /-- the scenario semantics agrees with the counterexample: POST, addresses 1 and 2, first reply a truncated 502 -/
 example :
-    dispatches (scenario defaultCfg (reqOf true post false) false [1, 2] false [.partBody 502 false]).2 = 2 := by decide
+    dispatches (scenario defaultCfg (reqOf true post false) false false [1, 2] false [.partBody 502 false]).2 = 2 := by decide
 
 /-- "get" is GET under the relaxed parser and an extension method under the strict one -/
 example : (classify true [103, 101, 116]).safe = true ∧ (classify false [103, 101, 116]).safe = false := by decide
